@@ -122,6 +122,9 @@ def r1_one_function_per_example(ctx):
         t, tn = _single_value(rd, n, arg) if arg is not None else (None, n)
         ok = False
         why = 'the appended text is not `def <name>():` + indented body'
+        if isinstance(t, ast.Call) and not (isinstance(t.func, ast.Attribute) and t.func.attr in ('format', 'join')):
+            # built somewhere this rule does not look: not a verdict
+            raise AnalysisError('C19.R1: the text of a generated function is built by %s, which this rule does not see through' % ctx.src(t, 60))
         if isinstance(t, ast.BinOp) and isinstance(t.op, ast.Add):
             hdr, body = t.left, t.right
             h_ok = isinstance(hdr, ast.Call) and isinstance(hdr.func, ast.Attribute) and hdr.func.attr == 'format' and const_str(hdr.func.value) is not None and \
